@@ -36,6 +36,7 @@ THEOREMS = [
     "C16_reverse_complement_geometry",
     "C16_reverse_refuted",
     "C16_reverse_partial",
+    "C16_reverse_setMaterial",
     "C16_universe_unique",
     "C16_universe_partial",
     "C16_universe_refuted",
